@@ -1,4 +1,5 @@
 import RCE.Proofs.SearchBest
+import RCE.Props.C09chess
 import RCE.Model.Search
 import RCE.Proofs.MoveGen
 import RCE.Proofs.Refine
@@ -52,8 +53,21 @@ theorem chess_bestmove_legal_by_the_rules (b : Board) (hl : Legal b) (g : GoLimi
     rw [hpure]; exact List.mem_map_of_mem hmem
   exact hex.mem_iff.mp this
 
+open RCE RCE.Proofs.Abs RCE.Proofs.BoardWF RCE.Proofs.EvalBound in
+/-- the same with the evaluation bound discharged: for every legal-game position whose promote-everything material is
+    within the bound (every position with at most 16 men a side is), every `go` is answered with a move that is legal
+    under the rules of chess -/
+theorem chess_go_answers_a_legal_move (b : Board) (hl : Legal b) (hp : PotentialBounded b) (g : GoLimits)
+    (maxDepth : Option Nat) (clock : Nat → Nat) (stopAtPoll : Nat) (cacheOff : Bool) (tt0 : Table Ply)
+    (hm : b.legalMovesPure ≠ []) (ht : TableScoresOK tt0) :
+    ∃ m, (chessSearch b g maxDepth clock stopAtPoll cacheOff tt0).best = some m ∧
+         absMove m ∈ Rules.legalMoves (abs b) :=
+  chess_bestmove_legal_by_the_rules b hl g maxDepth clock stopAtPoll cacheOff tt0 hm
+    (chess_eval_bounded b hl.wf hp) ht
+
 end RCE.Props.C09
 
 #print axioms RCE.Props.C09.one_legal_bestmove
 #print axioms RCE.Props.C09.ply_restored
 #print axioms RCE.Props.C09.chess_bestmove_legal_by_the_rules
+#print axioms RCE.Props.C09.chess_go_answers_a_legal_move
